@@ -39,7 +39,10 @@ ASSUMPTIONS = [
   "a pop-on load that starts while non-displayed memory still holds an older caption (no ENM; EOC swaps the memories) is a labelled "
   "class: asserted in full when the older caption occupies other rows than the load addresses (the load adds rows to it), unasserted "
   "from that point on when rows may be shared (ttconv merges overlapping cells differently from a cell grid; no encoder relies on it)",
-  "not generated: text mode, flash, DER, background attributes, overwriting displayed cells, two PACs on one row, "
+  "a pop-on caption that addresses one of its rows a second time is generated with the second PAC at column 0 only (labelled class; "
+  "attributes of the replacing text: known finding); with the second PAC elsewhere ttconv places the text relative to the row's text instead of the column: known finding, "
+  "kept as a replay",
+  "not generated: text mode, flash, DER, background attributes, overwriting displayed cells, "
   "a caption of another style starting while the previous one is still displayed",
 ]
 
@@ -83,7 +86,7 @@ class Timeline:
   is on the air during frame tc+k.  The reader may place the change anywhere in [lo, hi]:
     lo = tc + (index of the first word of the command run leading to word j) - (redundant control-code copies before it on the line)
     hi = tc + k + 2
-  The command run is the stretch of words before j on the same line that are neither channel-1 characters nor display changes
+  The command run is the stretch of words before j on the same line (or on lines that follow one another without a gap) that are neither channel-1 characters nor display changes
   (mode command, CR, PAC, tab offset, padding, other-channel data)."""
 
   def __init__(self, flat):
@@ -98,11 +101,12 @@ class Timeline:
       if not ch:
         continue
       i = j
-      while i > 0 and words[i - 1]["line"] == w["line"] and not changed[i - 1] and \
-          not (words[i - 1]["chan"] == 1 and words[i - 1]["what"] == "text"):
+      # (the run continues across a line boundary when the next line starts on the very next frame)
+      while i > 0 and (words[i - 1]["line"] == words[i]["line"] or words[i]["tc"] == words[i - 1]["tc"] + words[i - 1]["k"] + 1) and \
+          not changed[i - 1] and not (words[i - 1]["chan"] == 1 and words[i - 1]["what"] == "text"):
         i -= 1
       red_before = sum(1 for x in range(i - words[i]["k"], i) if words[x]["red"])
-      lo = w["tc"] + words[i]["k"] - red_before
+      lo = words[i]["tc"] + words[i]["k"] - red_before
       hi = w["tc"] + w["k"] + 2
       self.events.append((j, lo, hi, dec.screen(), dec.mode))
     self.last = (words[-1]["tc"] + words[-1]["k"] + 2) if words else 0
@@ -298,12 +302,16 @@ def compare(flat, text, f, screen, mode, got, res):
     feat = ""
     if mode == "roll" and "row-ends-with-mid-row-code" in flat.labels:
       feat = ":row-ends-with-mid-row-code"
+    if mode == "pop" and "pop:row-addressed-again:elsewhere" in flat.labels:
+      feat = ":row-addressed-again-elsewhere"
     res.fail("%s:%s%s" % (kind, m, feat), "%s: document shows %s, reference decoder shows %s\n%s" % (where, show_got(got), show_ref(screen), text))
     return
   if mode != "roll" or "roll:base-row-not-15" not in flat.labels:
     if [gr[0] for gr in got] != [sr[0] for sr in screen]:
       feat = ":caption-below-earlier-paint-on-caption" if mode == "paint" and "paint:caption-below-earlier-paint-on-caption" in flat.labels else ""
       res.fail("row-number:%s%s" % (m, feat), "%s: document shows %s, reference decoder shows %s\n%s" % (where, show_got(got), show_ref(screen), text))
+  # (the text that a second PAC on a row writes keeps the attributes of the text it replaces in ttconv: known finding, own bucket)
+  again = ":row-addressed-again" if mode == "pop" and any(l.startswith("pop:row-addressed-again") for l in flat.labels) else ""
   for gr, sr in zip(got, screen):
     for i, exp in enumerate(sr[3]):
       if exp is None:
@@ -312,7 +320,7 @@ def compare(flat, text, f, screen, mode, got, res):
       tag = ":" + sr[4][i] if sr[4][i] else ""
       for n, name in enumerate(("color", "italic", "underline")):
         if ga[n] != exp[n]:
-          res.fail("attr:%s:%s%s" % (name, m, tag), "%s row %d %r char %d %r: %s %r expected %r\n%s" % (
+          res.fail("attr:%s:%s%s%s" % (name, m, tag, again), "%s row %d %r char %d %r: %s %r expected %r\n%s" % (
             where, sr[0], sr[2], i, sr[2][i], name, ga[n], exp[n], text))
 
 
@@ -341,7 +349,7 @@ P_PAINT = g.profile(styles=("paint",))
 P_MIXED = g.profile(mix=True, max_caps=6)
 # labelled classes (asserted like the main ones unless stated in ASSUMPTIONS)
 P_CLASSES = g.profile(mix=True, undoubled=True, row_order=True, roll_base=True, roll_blank=True, open_end=True, pad_inside=True, paint_accumulate=True, mid_runs=True,
-                      pop_leftover=True)
+                      pop_leftover=True, revisit=True, split=True)
 # dedicated parts that keep exercising the triggers of the known findings
 P_C1 = g.profile(styles=("paint",), paint_c1=True, max_caps=4)
 P_C2 = g.profile(italics_on_colour=True, max_caps=3)
@@ -361,7 +369,8 @@ PARTS = {
   "mixed": Part("mixed", check, strategy=cases(P_MIXED), n=(800, 80000), shrinker=SHRINK, required_labels=("mode-switch",)),
   "classes": Part("classes", check, strategy=cases(P_CLASSES), n=(1200, 120000), shrinker=SHRINK,
                   required_labels=("undoubled-control", "roll:base-row-not-15", "pad-inside-displayed-row", "paint:accumulates-without-EDM",
-                                   "mid-row-run", "roll:blank-row", "file-ends-with-caption-displayed", "channel-2-twin-of-previous-code", "pop:load-over-leftover", "pop:load-over-leftover:other-rows", "mode-switch")),
+                                   "mid-row-run", "roll:blank-row", "file-ends-with-caption-displayed", "channel-2-twin-of-previous-code", "pop:load-over-leftover", "pop:load-over-leftover:other-rows", "mode-switch",
+                                   "pop:row-addressed-again:at-column-0", "doubled-code-split-over-adjacent-lines")),
   "c1": Part("c1", check, strategy=cases(P_C1), n=(320, 16000), shrinker=SHRINK,
              required_labels=("paint:caption-below-earlier-paint-on-caption",)),
   "c2": Part("c2", check, strategy=cases(P_C2), n=(320, 16000), shrinker=SHRINK),
